@@ -20,7 +20,8 @@ ASSUMPTIONS = [
     "Qhull's hull.area is an input of the model (contract: equals the model's own triangle-area sum, checked per case)",
     "hypotheses of the exactness theorems (cp_measures_exact_checked) are checked per case, exactly over Q, by the "
     "driver op chain.check on the implementation's own simplices S and the cone Ts over S from the vertex mean: "
-    "chainCheck(S, boundary of Ts) [sound: chainCheck_rat_sound], every simplex non-degenerate, vol(Ts) > 0; a false "
+    "chainCheck(S, boundary of Ts) [sound: chainCheck_rat_sound], every simplex non-degenerate, vol(Ts) > 0, every "
+    "tetrahedron of Ts positively oriented [tets.positive: hypothesis of cp_measures_lebesgue_checked]; a false "
     "answer is recorded as a contract failure. The cone is taken over S itself (not over the independent hull) because "
     "two correct triangulations of a non-triangular facet may use different diagonals and then differ as chains; "
     "how often the independent hull is chain-equal to S is counted (chain:indep-hull-*)",
@@ -179,8 +180,11 @@ def eval_case(ctx, case):
     apex = p.vertices.mean(axis=0)
     ts_impl = [np.array([apex, t[0], t[1], t[2]]) for t in S]
     ck = ctx.driver.Q("chain.check", tri_tokens(S), L(ts_impl))
+    # posTetsCheck: every cone tetrahedron positively oriented (hypothesis of cp_measures_lebesgue_checked: the
+    # integrals are then Lebesgue integrals over the tetrahedra as subsets of R^3, without orientation signs)
+    pos = bool(ctx.driver.Q("tets.positive", L(ts_impl))[0])
     hyp = {"chainCheck(S, bdry cone(S))": bool(ck[0]), "closedCheck(S)": bool(ck[1]),
-           "nondegCheck(S)": bool(ck[2]), "vol(cone(S)) > 0": bool(ck[3] > 0)}
+           "nondegCheck(S)": bool(ck[2]), "vol(cone(S)) > 0": bool(ck[3] > 0), "posTetsCheck(cone(S))": pos}
     ctx.count("chain:hypotheses-checked")
     if all(hyp.values()):
         ctx.count("chain:hypotheses-hold")
@@ -386,6 +390,17 @@ def measures_of(p, order_key, aligned=False):
     obs["diam"] = gen.diameter(pv)
     obs["L"] = obs["diam"] + float(np.linalg.norm(pv.mean(axis=0)))
     obs["rho"] = rho_thin(pv, obs["L"], obs["volume"], aligned)
+    # an independent reference for EVERY step of a history (the exact Q oracle judges the last one): tetrahedra from the
+    # vertex mean over scipy's hull of the current vertices, accurate to ~1e-12 of the size also for thin solids
+    try:
+        tets, _tris, _h = gen.cone_tets(pv)
+        T = np.array(tets)
+        m = T[:, 0]
+        dets = np.linalg.det(T[:, 1:] - m[:, None, :])
+        obs["ref_volume"] = float(np.sum(dets) / 6)
+        obs["ref_centroid"] = m[0] + np.sum(dets[:, None] * np.sum(T[:, 1:] - m[:, None, :], axis=1), axis=0) / (4 * np.sum(dets))
+    except Exception:  # noqa: BLE001
+        obs["ref_volume"] = None
     return obs
 
 
@@ -484,6 +499,14 @@ def check_history(ctx, case, v):
         # the stored volume is carried along incrementally: the loss of an earlier, farther placement stays in it
         rk = max(rk, oi["rho"])
         rB = rk + 64 * EPS * Lk ** 3 / max(abs(om["volume"]), 1e-300)     # Float model's own determinants, see eval_case
+        if oi["ref_volume"] is not None and 0 < k < len(impl) - 1:
+            # C at the intermediate steps (the last one is judged by the exact oracle below)
+            if not (ctx.close_enough(oi["volume"], oi["ref_volume"], Lk ** 3)
+                    and ctx.close_enough(oi["centroid"], oi["ref_centroid"], (1e-9 + rk) * Lk, tol=1.0)):
+                ctx.fail("ConvexPolyhedron:history:step", "in the middle of a history of setters the stored volume / "
+                         "centroid differ from the integrals over the current solid", case,
+                         [k, oi["volume"], oi["ref_volume"], oi["centroid"], oi["ref_centroid"]])
+                return
         if not (ctx.close_enough(oi["volume"], om["volume"], Lk ** 3)
                 and ctx.close_enough(oi["area"], om["area"], (1e-9 + rB) * dk ** 2, tol=1.0)
                 and ctx.close_enough(oi["total_area"], oi["area"], dk ** 2)
